@@ -111,6 +111,13 @@ def variant(rng, A, kind):
         B["arcs"].append([n, "c", n + 1, [1, 2]])
         B["arcs"].append([0, "c", n, [1, 2]] if rng.random() < 0.5 else [n + 1, "c", n, [1, 4]])
         return B
+    if kind == "extrasym":
+        B["n"] = n + 1                       # not equivalent: B also accepts the one-symbol string "c"
+        B["I"].append([n, [1, 2]])
+        B["arcs"].append([n, "c", n, [1, 4]] if rng.random() < 0.3 else [n, "c", 0 if not B["F"] else B["F"][0][0], [1, 2]])
+        if not any(q == n for q, _ in B["F"]) and B["arcs"][-1][2] == n:
+            B["F"].append([n, [1, 2]])
+        return B
     if kind == "split":
         # state 0's initial weight split over a duplicate of state 0 (same outgoing arcs, same final weight)
         B["n"] = n + 1
@@ -155,7 +162,7 @@ def generate(rng, tier, shard, nshards):
             A["F"] = []                      # empty language
         featA = aops.afeat(A) + ("+emptylang" if not A["F"] else "")
         yield event("min", {"A": A, "L": 3}, site="WFSA.min", feat=featA)
-        for kind in ("same", "perm", "redundant", "deadsym", "split", "tweak", "empty", "random"):
+        for kind in ("same", "perm", "redundant", "deadsym", "extrasym", "split", "tweak", "empty", "random"):
             if kind == "random":
                 B = aops.rand_wfsa(rng, "Rat", nS=rng.choice([1, 2, 3]), narcs=3, labels=("a", "b"), eps_acyclic=True, acyclic=True)
             else:
@@ -164,6 +171,9 @@ def generate(rng, tier, shard, nshards):
                 continue
             yield event("cex", {"A": A, "B": B}, site="counterexample", feat=kind)
             yield event("eq", {"A": A, "B": B}, site="__eq__/__hash__", feat=kind)
+            if kind in ("extrasym", "tweak", "deadsym"):           # the relation must not depend on the argument order
+                yield event("cex", {"A": B, "B": A}, site="counterexample", feat=kind + "/swapped")
+                yield event("eq", {"A": B, "B": A}, site="__eq__/__hash__", feat=kind + "/swapped")
             if kind in ("split", "redundant", "deadsym", "random"):
                 yield event("min", {"A": B, "L": 3}, site="WFSA.min", feat="min-of-" + kind)
         if i % 8 != shard % 8:
